@@ -24,6 +24,7 @@ def job(sub, runtime, budget, with_sup):
                   sample={'layer': 'L1 process_message', 'class': r['klass'], 'callbacks': [e[1:3] for e in r['cbs']]},
                   on_cex=lambda m, r=r: replay(tag, iteration_as_lifecycle(r)))
         lp.kill_preemption(sub, '%s.iteration.path%d' % (tag, k), r['state'], 'C01.iteration', on_cex=lambda m, r=r: replay_preempt(tag, iteration_as_lifecycle(r)))
+        lp.kill_look_before_every_callback(sub, '%s.iteration.path%d' % (tag, k), r['state'], 'C01.iteration', on_cex=lambda m: replay_window())
     for k, r in enumerate(res):
         complete = r['kind'] == 'ready'
         if r['kind'] in ('unwind', 'abort'):
@@ -35,6 +36,8 @@ def job(sub, runtime, budget, with_sup):
                   on_cex=lambda m, r=r: replay(tag, r['state'].trace))
         if lp.kill_preemption(sub, '%s.life.path%d' % (tag, k), r['state'], 'C01.lifecycle', on_cex=lambda m, r=r: replay_preempt(tag, r['state'].trace)):
             seen.add('callback_in_a_later_poll')
+        # (the handlers inside an L2 path are the L1 summary: their own look at the kill port is the L1 claim above)
+        lp.kill_look_before_every_callback(sub, '%s.life.path%d' % (tag, k), r['state'], 'C01.lifecycle', skip=('handle', 'handle_supervisor_evt', 'handle_serialized'), on_cex=lambda m: replay_window())
         exits = [e[1] for e in r['state'].trace if e[0] == 'LOOPEXIT']
         ends = [(e[2], e[4]) for e in r['state'].trace if e[0] == 'CB' and e[1] == 'end']
         if exits == ['stop'] and ('post_stop', 'ok') in ends:
@@ -64,6 +67,11 @@ def iteration_as_lifecycle(r):
 def replay(tag, trace):
     import life_replay
     return life_replay.replay_trace(tag, trace, 'C01')
+
+
+def replay_window():
+    import life_replay
+    return life_replay.replay_kill_window()
 
 
 def replay_preempt(tag, trace):
